@@ -5,6 +5,7 @@ namespace MpfVerif.Mode
 def Op.target : Op → Nat
   | .start m _ _ _ => m | .started m => m | .startedCb m => m | .stop m => m | .stopped m => m | .stoppedCb m => m
   | .addH m _ => m | .addSw m _ => m | .addDl m _ => m | .fireDl m _ => m | .turnEnd m => m
+  | .cfgPlay m _ => m | .addTm m _ => m | .fireTm m _ => m | .remTm m _ => m
 
 def evIdx : Ev → Nat
   | .ws => 0 | .sg => 1 | .sd => 2 | .wp => 3 | .pg => 4 | .pd => 5
@@ -490,6 +491,23 @@ theorem step_inv (st st' : St) (op : Op) (hI : Inv st) (h : step st op = some st
         · exact hturn e he hc
         · rw [he]; exact hs
     · cases h
+  | cfgPlay m id =>
+    simp only [step] at h
+    split at h <;> cases h <;> exact ⟨hexcl, hstop, hmem, hsorted, hcfg, hlife, hturn⟩
+  | addTm m id =>
+    simp only [step] at h
+    split at h
+    · cases h; exact ⟨hexcl, hstop, hmem, hsorted, hcfg, hlife, hturn⟩
+    · cases h
+  | fireTm m id =>
+    simp only [step] at h
+    split at h
+    · cases h; exact ⟨hexcl, hstop, hmem, hsorted, hcfg, hlife, hturn⟩
+    · cases h
+  | remTm m id =>
+    simp only [step, Option.some.injEq] at h
+    cases h
+    exact ⟨hexcl, hstop, hmem, hsorted, hcfg, hlife, hturn⟩
 
 theorem run_inv (st : St) (ops : List Op) (hI : Inv st) : Inv (run st ops) := by
   induction ops generalizing st with
@@ -610,6 +628,23 @@ theorem step_frame (st st' : St) (op : Op) (h : step st op = some st') :
     · cases h
       simp [Op.target, List.filter_append]
     · cases h
+  | cfgPlay m id =>
+    simp only [step] at h
+    split at h <;> cases h <;> exact ⟨rfl, rfl, rfl⟩
+  | addTm m id =>
+    simp only [step] at h
+    split at h
+    · cases h; exact ⟨rfl, rfl, rfl⟩
+    · cases h
+  | fireTm m id =>
+    simp only [step] at h
+    split at h
+    · cases h; exact ⟨rfl, rfl, rfl⟩
+    · cases h
+  | remTm m id =>
+    simp only [step, Option.some.injEq] at h
+    cases h
+    exact ⟨rfl, rfl, rfl⟩
 
 theorem run_frame (st : St) (ops : List Op) (m : Nat) (ht : ∀ op ∈ ops, op.target = m) :
     (run st ops).bus.filter (fun e => e.owner != m) = st.bus.filter (fun e => e.owner != m) ∧
@@ -648,5 +683,281 @@ theorem run_cfg (st : St) (ops : List Op) : (run st ops).cfg = st.cfg := by
     cases hs : step st op with
     | none => simpa using ih st
     | some st' => simpa using (ih st').trans (step_cfg st st' op hs)
+
+/-! ## the registries of config-player effects (`fx`) and of device-owned timers (`tm`) -/
+
+structure Inv2 (st : St) : Prop where
+  fxOwned : ∀ e ∈ st.fx, (st.modes e.owner).active = true
+  tmOwned : ∀ e ∈ st.tm, alive (st.modes e.owner) = true
+
+theorem inv2_init (cfg : Nat → Cfg) : Inv2 (init cfg) := by
+  constructor <;> simp [init]
+
+theorem active_upd (f : Nat → MState) (m : Nat) (ms' : MState) (l : List Ent)
+    (h : ∀ e ∈ l, (f e.owner).active = true) (hm : (∀ e ∈ l, e.owner ≠ m) ∨ ms'.active = true) :
+    ∀ e ∈ l, (upd f m ms' e.owner).active = true := by
+  intro e he
+  by_cases ho : e.owner = m
+  · rcases hm with hm | hm
+    · exact absurd ho (hm e he)
+    · rw [ho]; simpa using hm
+  · rw [upd_other _ _ _ _ ho]; exact h e he
+
+theorem alive_upd (f : Nat → MState) (m : Nat) (ms' : MState) (l : List Ent)
+    (h : ∀ e ∈ l, alive (f e.owner) = true) (hm : (∀ e ∈ l, e.owner ≠ m) ∨ alive ms' = true) :
+    ∀ e ∈ l, alive (upd f m ms' e.owner) = true := by
+  intro e he
+  by_cases ho : e.owner = m
+  · rcases hm with hm | hm
+    · exact absurd ho (hm e he)
+    · rw [ho]; simpa using hm
+  · rw [upd_other _ _ _ _ ho]; exact h e he
+
+theorem not_owned_of_filter (l : List Ent) (m : Nat) : ∀ e ∈ l.filter (fun e => !ownedBy m e), e.owner ≠ m := by
+  intro e he ho
+  have := (List.mem_filter.mp he).2
+  simp [ownedBy, ho] at this
+
+theorem cleanup_inv2 (st : St) (m : Nat) (h2 : Inv2 st) (hna : (st.modes m).active = false) : Inv2 (cleanup st m) := by
+  obtain ⟨hfx, htm⟩ := h2
+  unfold cleanup
+  split
+  · refine ⟨?_, ?_⟩ <;> dsimp only
+    · refine active_upd st.modes m _ st.fx hfx (Or.inl ?_)
+      intro e he ho
+      have := hfx e he
+      rw [ho, hna] at this; cases this
+    · exact alive_upd st.modes m _ _ (fun e he => htm e (List.mem_filter.mp he).1) (Or.inl (not_owned_of_filter st.tm m))
+  · exact ⟨hfx, htm⟩
+
+theorem step_inv2 (st st' : St) (op : Op) (h2 : Inv2 st) (h : step st op = some st') : Inv2 st' := by
+  obtain ⟨hfx, htm⟩ := h2
+  cases op with
+  | start m prio queue gameOk =>
+    simp only [step] at h
+    split at h
+    · cases h; exact ⟨hfx, htm⟩
+    · rename_i hg
+      cases h
+      have hna : (st.modes m).active = false := by
+        cases hx : (st.modes m).active <;> simp [hx] at hg ⊢
+      obtain ⟨cfx, ctm⟩ := cleanup_inv2 st m ⟨hfx, htm⟩ hna
+      have hna' : ((cleanup st m).modes m).active = false := by rw [(cleanup_flags st m m).1]; exact hna
+      unfold startCore
+      refine ⟨?_, ?_⟩ <;> dsimp only
+      · refine active_upd _ m _ _ cfx (Or.inl ?_)
+        intro e he ho
+        have := cfx e he
+        rw [ho, hna'] at this; cases this
+      · exact alive_upd _ m _ _ ctm (Or.inr (by simp [alive]))
+  | started m =>
+    simp only [step] at h
+    split at h
+    · cases h
+    · cases h
+      exact ⟨active_upd _ m _ _ hfx (Or.inr rfl), alive_upd _ m _ _ htm (Or.inr (by simp [alive]))⟩
+  | startedCb m =>
+    simp only [step] at h
+    split at h
+    · cases h
+    · cases h
+      refine ⟨?_, ?_⟩ <;> dsimp only
+      · intro e he
+        by_cases ho : e.owner = m
+        · rw [ho]; simp; rw [← ho]; exact hfx e he
+        · rw [upd_other _ _ _ _ ho]; exact hfx e he
+      · intro e he
+        by_cases ho : e.owner = m
+        · rw [ho]; simp; rw [← ho]; exact htm e he
+        · rw [upd_other _ _ _ _ ho]; exact htm e he
+  | stop m =>
+    simp only [step] at h
+    split at h
+    · cases h; exact ⟨hfx, htm⟩
+    · rename_i hg
+      cases h
+      have ha : (st.modes m).active = true := by
+        cases hx : (st.modes m).active <;> simp [hx] at hg ⊢
+      exact ⟨active_upd _ m _ _ hfx (Or.inr ha), alive_upd _ m _ _ htm (Or.inr (by simp [alive, ha]))⟩
+  | stopped m =>
+    simp only [step] at h
+    split at h
+    · cases h
+    · cases h
+      refine ⟨?_, ?_⟩ <;> dsimp only
+      · exact active_upd _ m _ _ (fun e he => hfx e (List.mem_filter.mp he).1) (Or.inl (not_owned_of_filter st.fx m))
+      · exact alive_upd _ m _ _ htm (Or.inr (by simp [alive]))
+  | stoppedCb m =>
+    simp only [step] at h
+    split at h
+    · cases h
+    · cases h
+      -- cleanup (whatever the flags are: a restarted mode's cleanup is not pending any more), then the counter
+      have hc : Inv2 (cleanup st m) := by
+        unfold cleanup
+        split
+        · refine ⟨?_, ?_⟩ <;> dsimp only
+          · intro e he
+            by_cases ho : e.owner = m
+            · rw [ho]; simp; rw [← ho]; exact hfx e he
+            · rw [upd_other _ _ _ _ ho]; exact hfx e he
+          · exact alive_upd st.modes m _ _ (fun e he => htm e (List.mem_filter.mp he).1)
+              (Or.inl (not_owned_of_filter st.tm m))
+        · exact ⟨hfx, htm⟩
+      obtain ⟨cfx, ctm⟩ := hc
+      unfold cbCore
+      refine ⟨?_, ?_⟩ <;> dsimp only
+      · intro e he
+        by_cases ho : e.owner = m
+        · have := cfx e he
+          rw [ho] at this ⊢; simpa using this
+        · rw [upd_other _ _ _ _ ho]; exact cfx e he
+      · intro e he
+        by_cases ho : e.owner = m
+        · have := ctm e he
+          rw [ho] at this ⊢; simpa [alive] using this
+        · rw [upd_other _ _ _ _ ho]; exact ctm e he
+  | addH m id => simp only [step, Option.some.injEq] at h; cases h; exact ⟨hfx, htm⟩
+  | addSw m id => simp only [step, Option.some.injEq] at h; cases h; exact ⟨hfx, htm⟩
+  | addDl m id => simp only [step, Option.some.injEq] at h; cases h; exact ⟨hfx, htm⟩
+  | fireDl m id =>
+    simp only [step] at h
+    split at h
+    · cases h; exact ⟨hfx, htm⟩
+    · cases h
+  | turnEnd m =>
+    simp only [step] at h
+    split at h
+    · cases h; exact ⟨hfx, htm⟩
+    · cases h
+  | cfgPlay m id =>
+    simp only [step] at h
+    split at h
+    · rename_i hg
+      cases h
+      refine ⟨?_, htm⟩
+      intro e he
+      simp only [List.mem_append, List.mem_singleton] at he
+      rcases he with he | he
+      · exact hfx e he
+      · rw [he]; simp only [Bool.and_eq_true] at hg; exact hg.1.1
+    · cases h; exact ⟨hfx, htm⟩
+  | addTm m id =>
+    simp only [step] at h
+    split at h
+    · rename_i hg
+      cases h
+      refine ⟨hfx, ?_⟩
+      intro e he
+      simp only [List.mem_append, List.mem_singleton] at he
+      rcases he with he | he
+      · exact htm e he
+      · rw [he]; exact hg
+    · cases h
+  | fireTm m id =>
+    simp only [step] at h
+    split at h
+    · cases h; exact ⟨hfx, fun e he => htm e (List.mem_filter.mp he).1⟩
+    · cases h
+  | remTm m id =>
+    simp only [step, Option.some.injEq] at h
+    cases h
+    exact ⟨hfx, fun e he => htm e (List.mem_filter.mp he).1⟩
+
+theorem run_inv2 (st : St) (ops : List Op) (h2 : Inv2 st) : Inv2 (run st ops) := by
+  induction ops generalizing st with
+  | nil => exact h2
+  | cons op r ih =>
+    simp only [run]
+    cases hs : step st op with
+    | none => simpa using ih st h2
+    | some st' => simpa using ih st' (step_inv2 st st' op h2 hs)
+
+/-- frame for the two new registries -/
+theorem step_frame2 (st st' : St) (op : Op) (h : step st op = some st') :
+    st'.fx.filter (fun e => e.owner != op.target) = st.fx.filter (fun e => e.owner != op.target) ∧
+    st'.tm.filter (fun e => e.owner != op.target) = st.tm.filter (fun e => e.owner != op.target) := by
+  have hcl : ∀ m, (cleanup st m).fx = st.fx ∧
+      (cleanup st m).tm.filter (fun e => e.owner != m) = st.tm.filter (fun e => e.owner != m) := by
+    intro m
+    unfold cleanup
+    split
+    · refine ⟨rfl, ?_⟩
+      dsimp only; apply filter_other_filter; intro e he; simp [ownedBy, he]
+    · exact ⟨rfl, rfl⟩
+  cases op with
+  | start m prio queue gameOk =>
+    simp only [step] at h
+    split at h
+    · cases h; exact ⟨rfl, rfl⟩
+    · cases h
+      simp only [startCore, Op.target]
+      exact ⟨by rw [(hcl m).1], (hcl m).2⟩
+  | started m => simp only [step] at h; split at h <;> cases h; exact ⟨rfl, rfl⟩
+  | startedCb m => simp only [step] at h; split at h <;> cases h; exact ⟨rfl, rfl⟩
+  | stop m => simp only [step] at h; split at h <;> cases h <;> exact ⟨rfl, rfl⟩
+  | stopped m =>
+    simp only [step] at h
+    split at h
+    · cases h
+    · cases h
+      refine ⟨?_, rfl⟩
+      dsimp only [Op.target]; apply filter_other_filter; intro e he; simp [ownedBy, he]
+  | stoppedCb m =>
+    simp only [step] at h
+    split at h
+    · cases h
+    · cases h
+      simp only [cbCore, Op.target]
+      exact ⟨by rw [(hcl m).1], (hcl m).2⟩
+  | addH m id => simp only [step, Option.some.injEq] at h; cases h; exact ⟨rfl, rfl⟩
+  | addSw m id => simp only [step, Option.some.injEq] at h; cases h; exact ⟨rfl, rfl⟩
+  | addDl m id => simp only [step, Option.some.injEq] at h; cases h; exact ⟨rfl, rfl⟩
+  | fireDl m id => simp only [step] at h; split at h <;> cases h; exact ⟨rfl, rfl⟩
+  | turnEnd m => simp only [step] at h; split at h <;> cases h; exact ⟨rfl, rfl⟩
+  | cfgPlay m id =>
+    simp only [step] at h
+    split at h
+    · cases h; simp [Op.target, List.filter_append]
+    · cases h; exact ⟨rfl, rfl⟩
+  | addTm m id =>
+    simp only [step] at h
+    split at h
+    · cases h; simp [Op.target, List.filter_append]
+    · cases h
+  | fireTm m id =>
+    simp only [step] at h
+    split at h
+    · cases h
+      refine ⟨rfl, ?_⟩
+      dsimp only [Op.target]; apply filter_other_filter; intro e he
+      simp only [bne_iff_ne, ne_eq]
+      intro heq; rw [heq] at he; exact he rfl
+    · cases h
+  | remTm m id =>
+    simp only [step, Option.some.injEq] at h
+    cases h
+    refine ⟨rfl, ?_⟩
+    dsimp only [Op.target]; apply filter_other_filter; intro e he
+    simp only [bne_iff_ne, ne_eq]
+    intro heq; rw [heq] at he; exact he rfl
+
+theorem run_frame2 (st : St) (ops : List Op) (m : Nat) (ht : ∀ op ∈ ops, op.target = m) :
+    (run st ops).fx.filter (fun e => e.owner != m) = st.fx.filter (fun e => e.owner != m) ∧
+    (run st ops).tm.filter (fun e => e.owner != m) = st.tm.filter (fun e => e.owner != m) := by
+  induction ops generalizing st with
+  | nil => exact ⟨rfl, rfl⟩
+  | cons op r ih =>
+    simp only [run]
+    have ht' : ∀ o ∈ r, o.target = m := fun o ho => ht o (by simp [ho])
+    have hm : op.target = m := ht op (by simp)
+    cases hs : step st op with
+    | none => simpa using ih st ht'
+    | some st' =>
+      obtain ⟨a, b⟩ := step_frame2 st st' op hs
+      rw [hm] at a b
+      obtain ⟨a', b'⟩ := ih st' ht'
+      simp only [Option.getD_some]
+      exact ⟨a'.trans a, b'.trans b⟩
 
 end MpfVerif.Mode
